@@ -155,9 +155,10 @@ def check_case(ctx, case):
                 return ctx.fail(("raised", name, "EnvironmentError"), case, {"n": n})
             except Exception as e:
                 return ctx.fail(("raised", name, type(e).__name__), case, {"error": repr(e)[:200]})
-            keys = [(t.variable, t.exponent) for t in got]
-            banned = {(t.variable, t.exponent) for t in excl}
-            if len(got) != n or len(set(keys)) != n or any(k in banned for k in keys) or any(k[1] == 1 for k in keys):
+            # templates are distinct in the library's own sense: the text "variable^exponent" (x^2 and x^2.0 are two texts)
+            keys = [(t.variable, str(t.exponent)) for t in got]
+            banned = {(t.variable, str(t.exponent)) for t in excl}
+            if len(got) != n or len(set(keys)) != n or any(k in banned for k in keys) or any(k[1] == "1" for k in keys):
                 return ctx.fail(("term-templates-wrong",), case, {"n": n, "got": [repr(k) for k in keys], "excluded": [repr(k) for k in banned]})
             for t in got:
                 txt = t.make()
